@@ -470,4 +470,37 @@ Section SelSim.
     - apply Bool.andb_true_iff in Hd as [Hv Hs]. apply vrel_app; [apply msgs_vrel; reflexivity|now apply operation_vrel].
     - apply Bool.andb_true_iff in Hd as [Hc Hs]. apply vrel_app; [apply msgs_vrel; reflexivity|]. apply msgs_vrel. now apply fragment_definition_rel.
   Qed.
+  (* ---- fragments no operation spreads (second summand of check_operation_document) ---- *)
+  Lemma msgs_filter (p : K.msg -> bool) a b : msgs a = msgs b ->
+    msgs (filter (fun e => p (K.e_msg e)) a) = msgs (filter (fun e => p (K.e_msg e)) b).
+  Proof.
+    revert b. induction a as [|x r IH]; intros [|y r2] H; cbn [map] in H; try discriminate; [reflexivity|].
+    injection H as Hx Hr. cbn [filter]. rewrite Hx. destruct (p (K.e_msg y)); cbn [map]; now rewrite ?Hx, (IH _ Hr).
+  Qed.
+
+  Lemma unspread_fragment_rel fuel f : P (iname (fr_cond f)) = true -> selset_ok P (fr_sel f) = true ->
+    msgs (K.check_unspread_fragment fuel S1 fm f) = msgs (K.check_unspread_fragment fuel S2 fm f).
+  Proof.
+    intros Hp Hs. unfold K.check_unspread_fragment.
+    apply (msgs_filter (fun m => negb (match m with K.UnknownVariable _ => true | _ => false end))).
+    rewrite !map_app, (check_directives_rel S1 S2 P None Hty Hdir Hclosed_input Hclosed_dir). f_equal.
+    pose proof (Hty _ Hp) as Hl.
+    destruct (K.get_type S1 (iname (fr_cond f))) as [t1|] eqn:E1, (K.get_type S2 (iname (fr_cond f))) as [t2|]; cbn [orel] in Hl; try contradiction; [|reflexivity].
+    pose proof (td_rel_view _ _ Hl) as Hv.
+    assert (G : msgs (K.check_selection_set fuel S1 fm None [iname (fr_name f)] t1 (fr_sel f))
+              = msgs (K.check_selection_set fuel S2 fm None [iname (fr_name f)] t2 (fr_sel f))).
+    { apply selection_set_rel; [exact Hv|now rewrite (get_type_tname _ _ _ E1)|exact (get_type_looked_up _ _ _ E1)|exact Hs]. }
+    destruct Hv; try reflexivity; exact G.
+  Qed.
+
+  Lemma unspread_rel fuel defs : forall spread, forallb (def_ok P) defs = true ->
+    msgs (K.check_unspread fuel S1 fm spread defs) = msgs (K.check_unspread fuel S2 fm spread defs).
+  Proof.
+    induction defs as [|d r IH]; intros spread Hok; cbn [K.check_unspread]; [reflexivity|].
+    cbn [forallb] in Hok. apply Bool.andb_true_iff in Hok as [Hd Hr].
+    destruct d as [op|f|im]; try (now apply IH).
+    destruct (K.mem_str (iname (fr_name f)) spread); [now apply IH|].
+    cbn [def_ok] in Hd. apply Bool.andb_true_iff in Hd as [Hc Hs].
+    rewrite !map_app, (IH _ Hr). f_equal. now apply unspread_fragment_rel.
+  Qed.
 End SelSim.
